@@ -55,6 +55,19 @@ register("C14", module="cachechecks", fn="case_c14", replay="replay_harness", bi
          assumptions=["sizes are measured as the cleaner measures them (sum of st_size over a walk)", "LRU order is not asserted", "operations concurrent with clean may hit or miss but never return a partial tree"],
          components={"real": REAL_CACHE, "stub": STUB_CACHE})
 
+register("C15", module="cachechecks", fn="case_c15", replay="replay_c15", binaries=("cmap",), needs_linchk=True,
+         cases={"quick": 16, "thorough": 800}, budget={"quick": 240, "thorough": 3000}, level="exploration",
+         rule="scenario = 2-5 client tasks (+ a closer that finally sets every awaited key) issuing 2-6 operations each from Add/AddOrGet/Set/Get/GetOrWait/Contains/Values/wait-then-Get over 1-3 keys on the real cmap.Map with 1, 2 or 4 shards (or GetOrSet/Get on ErrMap), <=26 operations per history, every written value unique; the seeded scheduler decides every lock acquisition order (incl. the RUnlock->Lock gap of shard.Get); each history is stamped with scheduler step numbers and checked with porcupine against a per-key sequential model, plus wake-up invariants (no waiter left blocked once its key is set, no release before an insert of that key was invoked, a read after release sees a written value, GetOrSet runs f once and all callers agree); distinct_nontrivial = distinct histories with >=2 overlapping operation pairs on one key",
+         assumptions=["critical sections under the shard lock are atomic steps (the simulator-aware RWMutex preserves mutual exclusion)", "Contains on a merely awaited key may answer either way; Values is checked as a regular read",
+                      "porcupine verdict Unknown (timeout) is counted, never reported"],
+         components={"real": ["src/cmap Map, shard, ErrMap"], "stub": ["sync.RWMutex (simulator-aware equivalent)", "goroutine scheduling (seeded)"]})
+
+register("C27", module="cachechecks", fn="case_c27", replay="replay_c27", binaries=("core",),
+         cases={"quick": 8, "thorough": 300}, budget={"quick": 120, "thorough": 1800}, level="exploration",
+         rule="scenario = 2-6 simulated test tasks, each delivering generated line coverage (files shared between tests, vectors over the four line states, unequal lengths 0-8) through the real BuildState.LogTestResult, one result optionally delivered twice; the seeded scheduler picks the completion order, 6 orders per scenario; the aggregate must equal the point-wise best with length extension in every order; distinct_nontrivial = distinct (scenario, completion order) pairs with >=2 tests",
+         assumptions=["the algebraic core (max-merge) is a pure function; what is simulated is only the order in which tasks pass through the mutex-protected aggregate"],
+         components={"real": ["core.BuildState.LogTestResult", "core.TestCoverage.Aggregate / MergeCoverageLines"], "stub": ["goroutine scheduling (seeded)", "sync.Mutex (simulator-aware)"]})
+
 
 def cmd_check(pid, tier):
     import framework
